@@ -27,20 +27,23 @@ def lblText : Lbl → String
   | .park => "park" | .reacq n => s!"reacq:{b01 n}" | .notify l => if l == 2 then "notify" else s!"notify:{l}"
   | .evCheck => "evcheck" | .evPark => "evpark" | .evWake b => s!"evwake:{b01 b}"
   | .slPark => "slpark" | .slWake => "slwake"
-  | .mark m => s!"mark:{markText m}" | .publish => "publish" | .crash => "crash"
+  | .mark m => s!"mark:{markText m}" | .publish r => (if r == 0 then "publish" else s!"publish:{r}") | .crash => "crash"
 
 def statusText : Status → String
   | .run => "run" | .done => "done" | .raised .stop => "raised:stop" | .raised .timeout => "raised:timeout" | .crashed => "crashed"
 
 def taskFn : String → Option Nat
   | "any" => some fMainAny | "loop" => some fMainLoop | "sleep" => some fMainSleep
-  | "recvn" => some fMainRecvN | "recvt" => some fMainRecvT | "idle" => some fMainIdle | _ => none
+  | "recvn" => some fMainRecvN | "recvt" => some fMainRecvT | "idle" => some fMainIdle
+  | "loopw" => some fMainLoop | "any2" => some fMainAny2 | "recv2" => some fMainRecv2 | _ => none
 
 def parseSys (t n p c : String) (st : String := "RUNNING") : Option (Sys × Bool) :=
   -- p: 0 = neither, 1 = publisher, 2 = bystander waiter on the same condition, 3 = both
   match taskFn t, n.toNat?, p.toNat?, c.toNat?, QmiModel.Gen.SyncProgs.stateNames.idxOf? st with
   | some f, some ns, some pb, some cap, some ts =>
-    if ns ≤ 3 && cap ≤ 3 && pb ≤ 3 then some (mk f ns (pb % 2 == 1) cap ts (pb ≥ 2), t == "loop") else none
+    if ns ≤ 3 && cap ≤ 3 && pb ≤ 3 then
+      some (mk f ns (pb % 2 == 1) cap ts (pb ≥ 2) (t == "loopw") (t == "any2" || t == "recv2"), t == "loop" || t == "loopw")
+    else none
   | _, _, _, _, _ => none
 
 def dedup (l : List St) : List St :=
